@@ -225,7 +225,10 @@ def parse_numbers(numbers, is_date=False):
                 curr = list()
                 while stepSign * date <= stepSign * last:
                     curr.append(date)
-                    date = get_date(date, step)
+                    try:
+                        date = get_date(date, step)
+                    except ValueError:
+                        verif.util.error("Could not parse '%s': %d is not a valid date." % (numbers, date))
                 values = values + list(curr)
             else:
                 # Note: Values are rounded, to avoid problems with floating point
